@@ -1,4 +1,4 @@
-import Proofs.SubmitAct
+import Proofs.SubmitReach
 
 /-!
 # C07 — the DA-included (final) height is sound, monotone, durable and eventually reached
@@ -124,6 +124,26 @@ theorem C07_eventually_after_clean_restart {c : Cfg} {a a' : ANode} (h : Nat)
   obtain ⟨r1, b, r2, r3, r4⟩ := hm k k1 k2
   exact ⟨Nat.le_trans r1 hht, b, by rw [hblk]; exact r2, by rw [hM]; exact r3, by rw [hD]; exact r4⟩
 
+/-- **Durable; never decreases across a restart.**  At every point of every interleaving from a fresh start (any initial
+height ≥ 1), the DA-included height is the persisted one — or nothing is persisted yet and it is `initialHeight − 1` —, and
+a restart on the node's image, after a clean stop or a crash between two actions, succeeds and **reports exactly the
+height the node reported before it** (below 2^64: the value is stored in eight bytes), which is still at most the chain
+height. -/
+theorem C07_restart_keeps_da_included (c : Cfg) (hpos : 1 ≤ c.initialHeight) (acts : List Act) (clean : Bool)
+    (hb : (runA c (freshA c) acts).daInc < 2 ^ 64) :
+    ((runA c (freshA c) acts).n.store.getMeta daIncKey = some (le64 (runA c (freshA c) acts).daInc) ∨
+     ((runA c (freshA c) acts).n.store.getMeta daIncKey = none ∧
+      (runA c (freshA c) acts).daInc = c.initialHeight - 1)) ∧
+    ∃ a', restart c (runA c (freshA c) acts) (runA c (freshA c) acts).n.store clean = some a' ∧
+      a'.daInc = (runA c (freshA c) acts).daInc ∧ a'.daInc ≤ a'.n.store.height := by
+  have r : R c (runA c (freshA c) acts) := by
+    rw [← runR_act]; exact (R_fresh c hpos).run _
+  have p : PDI c (runA c (freshA c) acts) := (PDI_fresh c).run (R_fresh c hpos) acts
+  obtain ⟨a', hr, _, _, _, hh, _⟩ := r.restart clean
+  obtain ⟨e, _⟩ := p.restart hr hb
+  have hle := (runA_G (G_fresh c hpos) acts).incLe
+  exact ⟨p.2, a', hr, e, by rw [e]; exact Nat.le_trans hle hh⟩
+
 /-- the block at `h` is stored and the DA double holds its header blob and (unless empty) its data blob -/
 def onDA (a : ANode) (h : Nat) : Bool :=
   match a.n.store.getBlock h with
@@ -203,7 +223,7 @@ theorem C07_stalls_for_ever_after_crash : ∃ a', yCrashed = some a' ∧ (∀ k,
     ∀ ops : List Op, runOps a' ops = a' ∧ (runOps a' ops).daInc = 0 := by
   obtain ⟨a', hc, h1, h2, h3, h4, h5, h6, h7, h8⟩ := yCrashed_facts
   have hidle : Idle a' :=
-    { hdr := by omega, data := fun h ha hb => by omega, incl := incNext_none_of_no_marks h4 }
+    { hdr := by omega, data := by omega, incl := incNext_none_of_no_marks h4 }
   refine ⟨a', hc, ?_, fun ops => ⟨idle_forever hidle ops, by rw [idle_forever hidle ops]; exact h5⟩⟩
   intro k k1 k2
   have : k = 1 ∨ k = 2 ∨ k = 3 := by omega
@@ -219,7 +239,7 @@ theorem C07_eventually_after_crash_fails : ¬ C07_eventually_after_crash_full :=
 
 /-- the general reason: a node with nothing pending and no mark for the next block never changes again -/
 theorem C07_idle_for_ever {a : ANode} (h1 : a.n.store.height = a.n.hdrWm)
-    (h2 : ∀ h, a.n.dataWm < h → h ≤ a.n.store.height → ∃ b, a.n.store.getBlock h = some b ∧ b.data.txs = [])
+    (h2 : a.n.store.height = a.n.dataWm)
     (h3 : a.hMarks = []) (ops : List Op) : runOps a ops = a :=
   idle_forever ⟨h1, h2, incNext_none_of_no_marks h3⟩ ops
 
